@@ -1,6 +1,7 @@
 #!/usr/bin/env python3
 """dev helper: run a unit and print a compact report"""
 import sys, os, json
+os.environ["VERIF_GEN_FLAT"] = "1"
 sys.path.insert(0, os.path.dirname(os.path.abspath(__file__)))
 import vrun
 r = vrun.run_unit_stable(sys.argv[1], threads=8)
